@@ -208,6 +208,12 @@ func getNotifyState(l *notifyList) *notifyState {
 	return st
 }
 
+// notifyLess reports whether ticket a precedes b (wrap-around safe, as in
+// the Go runtime's notify list).
+func notifyLess(a, b uint32) bool {
+	return int32(a-b) < 0
+}
+
 //go:linkname sync_runtime_notifyListAdd sync.runtime_notifyListAdd
 func sync_runtime_notifyListAdd(l *notifyList) uint32 {
 	return latomic.AddUint32(&l.wait, 1) - 1
@@ -217,7 +223,9 @@ func sync_runtime_notifyListAdd(l *notifyList) uint32 {
 func sync_runtime_notifyListWait(l *notifyList, t uint32) {
 	st := getNotifyState(l)
 	st.mu.Lock()
-	for latomic.LoadUint32(&l.notify) == t {
+	// Wait until this ticket has been notified (notify > t). Comparing for
+	// equality would let every waiter but the oldest return at once.
+	for !notifyLess(t, latomic.LoadUint32(&l.notify)) {
 		st.cond.Wait(&st.mu)
 	}
 	st.mu.Unlock()
@@ -238,7 +246,9 @@ func sync_runtime_notifyListNotifyOne(l *notifyList) {
 	st.mu.Lock()
 	if latomic.LoadUint32(&l.notify) != latomic.LoadUint32(&l.wait) {
 		latomic.AddUint32(&l.notify, 1)
-		st.cond.Signal()
+		// All waiters share one condition variable; wake them all and let
+		// the ticket comparison pick the one that was notified.
+		st.cond.Broadcast()
 	}
 	st.mu.Unlock()
 }
